@@ -301,7 +301,24 @@ def order(F, res):
     elif in_loop and iter_src_ok and not sorts:
         res.add([ok("ORDER", key2, w, "fields.push(..) inside `for (index, field_def) in case_def.fields.iter().enumerate()`; no reordering")])
     else:
-        res.add([finding("ORDER", key2, w, "record fields are not emitted in the declaration order of the case")])
+        # the same written as a chain: `case_def.fields.iter().enumerate().map(..).collect()` - order-preserving adaptors only
+        # between the declaration's fields and the collected list of expressions
+        ORDER_KEEPING = ("core::slice::<impl [T]>::iter", "std::iter::Iterator::enumerate", "std::iter::Iterator::map", "std::iter::IntoIterator::into_iter",
+                         "std::iter::Iterator::zip", "std::iter::Iterator::cloned", "std::iter::Iterator::copied", "std::ops::Deref::deref")
+        chain_ok = False
+        for bi, t in mir.calls(f):
+            if (t.get("callee") or "") != "std::iter::Iterator::collect" or "v1beta0::Expression" not in " ".join(t.get("gargs") or []) + f["locals"][t["dest"]["l"]]:
+                continue
+            o = mir.provenance(f, du, t["args"][0], transparent_extra=ORDER_KEEPING)
+            if o and all((x.kind in ("arg", "local", "call")) for x in o) and any(".fields" in x.proj or (x.kind == "call" and x.callee.endswith("case_def")) for x in o) \
+                    and not any(x.kind == "call" and x.callee.startswith("std::iter::Iterator::") for x in o):
+                chain_ok = True
+        if chain_ok and not sorts and not pushes:
+            res.add([ok("ORDER", key2, w, "case_def.fields.iter()..map(..).collect(): order-preserving adaptors only; no reordering")])
+        elif pushes or sorts:
+            res.add([finding("ORDER", key2, w, "record fields are not emitted in the declaration order of the case")])
+        else:
+            res.add([assumption("ORDER", key2, w, "the field list is built in a shape this rule does not follow (neither a push loop nor an order-preserving chain over the declaration's fields): not decided")])
 
 
 def discharge_sort(t):
